@@ -1,4 +1,5 @@
 import MudProof.Properties.C16
+import MudProof.StepThm
 open Mud.C16
 #print axioms continueSim_fst
 #print axioms continueSim_snd
@@ -11,3 +12,5 @@ open Mud.C16
 #print axioms times_strictly_increasing
 #print axioms terminates_by_max_steps
 #print axioms kinetic_from_momentum
+#print axioms Mud.StepThm.shRun_length
+#print axioms Mud.StepThm.shRun_clock
